@@ -175,10 +175,14 @@ def children : Node → List (Key × Node)
   | .comp _ _ cs => cs
   | .leaf .. => []
 
-/-- `bool(node)`: containers are truthy when non-empty, function nodes always. -/
+/-- `bool(node)`: containers are truthy when non-empty; a function node is `bool(self._func)`, i.e. truthy unless
+    its target name is the empty string (which a merge with an empty string can produce). -/
 def truthy : Node → Bool
   | .leaf _ k => k.truthy
-  | .comp _ k cs => if k.isFunc then true else !cs.isEmpty
+  | .comp _ k cs =>
+    match k.func? with
+    | some f => f != ""
+    | none => !cs.isEmpty
 
 /-- `isinstance(node, dict)` -/
 def isDict : Node → Bool
